@@ -8,3 +8,4 @@ driver("drv_prfree", variant="tsan")
 driver("drv_byteio", variant="asan", cflags="-fno-access-control")
 driver("drv_endian", variant="plain")
 driver("drv_args", variant="plain", cflags="-fno-access-control")
+driver("drv_strings", variant="asan")
